@@ -45,7 +45,7 @@ def main(args):
         scratch = tempfile.mkdtemp(prefix="vmut-", dir="/tmp")
         try:
             subprocess.run(["rsync", "-a", "--exclude", ".git", "--exclude", "_build", "/repo/", scratch + "/"], check=True)
-            r = subprocess.run(["patch", "-p1", "-s", "-d", scratch, "-i", patch], capture_output=True, text=True)
+            r = subprocess.run(["patch", "-p1", "-s", "--binary", "-d", scratch, "-i", patch], capture_output=True, text=True)
             if r.returncode != 0:
                 res.append((patch, ",".join(pids), "PATCH-FAILED", r.stdout[-300:] + r.stderr[-300:]))
                 continue
